@@ -153,13 +153,11 @@ def main(run):
         run.hist("prefilter", a)
         if a != b:
             nbad += 1
-            d = bytes.fromhex(x) if x != "-" else b""
-            coap = len(d) > 0 and (d[0] >> 6) == 1
             if nbad <= 2:
-                run.violation("ClientHello pre-filter: implementation %s, model %s for datagram %s%s"
-                              % (a, b, x[:60], " (a CoAP version-1 header: cleartext CoAP must never open a DTLS session)" if coap and "new=1" in a else ""),
-                              "case: c19pre %s\nimpl: %s\nmodel: %s\n" % (x, a, b), tag="pre%d" % nbad,
-                              no_input=not (coap and "new=1" in a))
+                run.violation("ClientHello pre-filter: implementation %s, model %s for datagram %s"
+                              % (a, b, x[:60]),
+                              "case: c19pre %s\n(sent after the other datagrams of the sweep: the receive buffer is reused)\n"
+                              "impl: %s\nmodel: %s\n" % (x, a, b), tag="pre%d" % nbad, no_input=True)
     run.cov["prefilter_sweep_cases"] = len(pre)
 
     # 2. sessions: corpus first, then generated
